@@ -169,12 +169,13 @@ def check(pid, tier, regen=False):
         if regen and not seeded:
             continue
         R.add_violation({"property": pid, "clause": clause, "group": group_of(ev, clause), "sig": s, "seeded": seeded,
-                         "second_opinion": "Z3 agrees with FP.tla", "event": ev,
+                         "second_opinion": "Z3 agrees with FP.tla",
                          "readable": {"op": ev["op"], "rm": ev["rm"], "fmt": (ev["eb"], ev["sb"]), "size": ev["size"],
                                       "a": hex(W.unbits(ev["a"])), "b": hex(W.unbits(ev["b"])) if ev["b"] else "",
                                       "inner": [ev["iop"], ev["irm"], hex(W.unbits(ev["ia"])), hex(W.unbits(ev["ib"])), ev["ipos"]] if ev["iop"] else [],
                                       "fold": hex(W.unbits(ev["fold"])), "out": ev["out"],
-                                      "solved": hex(W.unbits(ev["solved"])), "sout": ev["sout"]}})
+                                      "solved": hex(W.unbits(ev["solved"])), "sout": ev["sout"]},
+                         "event": ev})
     if regen:
         name = f"{pid}-exact.txt" if tier == "quick" else f"{pid}-exact-thorough.txt"
         keep = set(new_exact)
